@@ -99,7 +99,7 @@ func runC17(r *R) {
 				okDec = k == 1
 			}
 			g, _ := Guard(fn, nil, c.(ssa.Instruction), GeC("maxSymlinks < 0", Is(ms), ConstIntVP(0)))
-			after := len(rl) == 1 && rl[0].Block().Dominates(c.Block())
+			after := len(rl) == 1 && Precedes(rl[0], c)
 			r.Check(okDec && g && after, "C17-R2", fn, "walkMount(dest, target, maxSymlinks-1, …)", c.Pos(), "counter decremented, guarded by NOT maxSymlinks<0", "symlink chains/cycles are followed without a decreasing bound")
 			below, isC := ConstBool(a[3])
 			r.Check(isC && below, "C17-R2", fn, "walkMount(dest, target, …, walkMountsBelow=true)", c.Pos(), "a link target is a new source path: mounts beneath it are walked", "after following a symlink the collections mounted beneath the target are not walked: they appear under the real path but are silently missing under the link name")
@@ -256,7 +256,7 @@ func runC17(r *R) {
 			parts := ConcatParts(cf["dst"])
 			if len(parts) == 2 {
 				if s, _ := ConstString(parts[1]); s == "/.keep" {
-					g, _ := Guard(fn, nil, in, EqC("len(names) == 0", lenVP, ConstIntVP(0)))
+					g, _ := Guard(fn, nil, in, IntC("len(names) == 0", lenVP, token.EQL, 0, true))
 					src, _ := ConstString(cf["src"])
 					ok = g && same(parts[0], paramOf(fn, "dest")) && (src == "/dev/null" || strings.Contains(Canon(cf["src"]), "DevNull"))
 				}
